@@ -8,6 +8,7 @@ set -u
 PATCH=$(readlink -f "$1"); DEMO=$(readlink -f "$2"); DEST=$3; MOD=$4; shift 4
 export GOFLAGS=-mod=mod GOPROXY=off GIT_CONFIG_GLOBAL=/dev/null
 WT=$(mktemp -d /tmp/confirm-XXXXXX)
+mkdir -p "$WT/tmp"; export TMPDIR="$WT/tmp"   # sql/sqlite lock tests use the shared temp dir
 git -C /repo worktree add -q --detach "$WT/repo" HEAD || exit 2
 cleanup() { git -C /repo worktree remove --force "$WT/repo"; rm -rf "$WT"; }
 cd "$WT/repo"
